@@ -593,6 +593,8 @@ def cond_coq(c):
         return "(CMapKeys " + lib.clist([f"({elt_coq(a)}, {epat_coq(b)})" for a, b in c[1]]) + ")"
     if k == "pand":
         return f"(CPAnd {cond_coq(c[1])} {cond_coq(c[2])})"
+    if k == "ifexp":
+        return f"(CIfExp {lib.cbool(c[1])} {cond_coq(c[2])} {cond_coq(c[3])})"
     if k == "assertinst":
         return f"(CAssertInst {U.COQ_CLS[c[1]]})"
     if k == "assertis":
@@ -699,6 +701,8 @@ def py_holds(c, o):
         raise Raises(repr(ex))
     if k == "not":
         return not py_holds(c[1], o)
+    if k == "ifexp":
+        return py_holds(c[2], o) if c[1] else py_holds(c[3], o)
     if k == "pand":
         return py_holds(c[1], o) and py_holds(c[2], o)
     if k == "and":
@@ -717,6 +721,8 @@ def py_cond_ok(c, o):
         return py_cond_ok(expand(c[1]), o)
     if k == "pand":
         return py_cond_ok(c[1], o) and py_cond_ok(c[2], o)
+    if k == "ifexp":
+        return py_cond_ok(c[2], o) and py_cond_ok(c[3], o)
     if k == "eq":
         l = lit_py(c[1])
         return not (o == l) or type(o) is type(l)
@@ -737,6 +743,8 @@ def tested_of(c):
         return tested_of(expand(c[1]))
     if k == "pand":
         return tested_of(c[1]) + tested_of(c[2])
+    if k == "ifexp":
+        return tested_of(c[2]) + tested_of(c[3])
     if k == "assertinst":
         return ((("typed", c[1]), ()),)
     if k == "assertis":
@@ -930,6 +938,11 @@ def build_constraint(c, varname):
         return NULL_CONSTRAINT
     if k == "pand":
         return AndConstraint.make([build_constraint(c[1], varname), build_constraint(c[2], varname)])
+    if k == "ifexp":
+        # the value of `(a) if f() else (b)` is a union whose members carry the two constraints
+        from pyanalyze.stacked_scopes import AlternativesConstraint
+
+        return AlternativesConstraint.make([build_constraint(c[2], varname), build_constraint(c[3], varname)])
     if k == "truthy":
         return Constraint(varname, ConstraintType.is_truthy, True, None)
     if k == "isinstance":
@@ -1032,6 +1045,10 @@ def cond_src(c, defs, idx):
         return "opq()"
     if k == "hasattr":
         return f'hasattr(x, "{c[1]}")'
+    if k == "ifexp":
+        a = cond_src(c[2], defs, idx)
+        b = cond_src(c[3], defs, idx)
+        return None if a is None or b is None else f"(({a}) if opq() else ({b}))"
     if k == "not":
         e = cond_src(c[1], defs, idx)
         return None if e is None else f"not ({e})"
@@ -1058,6 +1075,8 @@ def simple_boolop(c):
 
 
 def leaves_of(c):
+    if c[0] == "ifexp":
+        return leaves_of(c[2]) + leaves_of(c[3])
     if c[0] == "after":
         return leaves_of(c[1]) + leaves_of(c[2])
     if c[0] == "pat":
@@ -1173,6 +1192,72 @@ def alt_may_take(shape, a, b, o, pol):
     return res == pol
 
 
+# ---------------------------------------------------------------------------
+# stored-condition programs (executed under CPython): the result of a condition on x is kept in a local,
+# x is rebound on none / some / all paths (if, if-else, while, for, try), then the program branches on the
+# stored flag.  FunctionScope._add_single_constraint must apply the constraint only if every definition of x
+# that reaches the branch was current when the condition was evaluated.  Every object actually bound to x at
+# the recording points (all argument combinations are run) must belong to the value inferred there.
+
+REBIND_LITS = [("str", "hello"), ("none",), ("int", 0), ("tuple", (("int", 1),))]
+
+
+def stored_cases(rng, n):
+    out = []
+    for _ in range(n):
+        v = tuple(dict.fromkeys(rng.choice(SAFE_VALUES) for _ in range(rng.choice([2, 3, 3]))))
+        c = rng.choice(SAFE_LEAVES + [("truthy",)])
+        shape = rng.choice(["none", "if", "if", "ifelse", "while", "for", "try", "elifchain"])
+        out.append((v, c, shape, rng.choice(REBIND_LITS), rng.choice(REBIND_LITS), rng.choice(["if", "ifnot", "while"])))
+    return out
+
+
+def stored_src(i, v, c, shape, l1, l2, branch, executable):
+    ann = value_src(v)
+    e = "bool(x)" if c == ("truthy",) else cond_src(c, [], i)
+    a, b = lit_src(l1), lit_src(l2)
+    rebind = {
+        "none": "",
+        "if": f"    if flag:\n        x = {a}\n",
+        "ifelse": f"    if flag:\n        x = {a}\n    else:\n        x = {b}\n",
+        "while": f"    while n > 0:\n        n -= 1\n        x = {a}\n",
+        "for": f"    for _k in range(n):\n        x = {a}\n",
+        "try": f"    try:\n        if flag:\n            raise ValueError\n        x = {a}\n    except ValueError:\n        pass\n",
+        "elifchain": f"    if flag:\n        x = {a}\n    elif n > 0:\n        x = {b}\n",
+    }[shape]
+    r1 = f"_REC.append(({i}, 0, x))" if executable else "M1 = x"
+    r2 = f"_REC.append(({i}, 1, x))" if executable else "M2 = x"
+    if branch == "if":
+        tail = f"    if c_:\n        {r1}\n    else:\n        {r2}\n"
+    elif branch == "ifnot":
+        tail = f"    if not c_:\n        {r1}\n    else:\n        {r2}\n"
+    else:
+        tail = f"    while c_:\n        {r1}\n        break\n"
+    return f"def f_{i}(x: {ann}, flag: bool, n: int):\n    c_ = {e}\n" + rebind + tail
+
+
+def run_stored(cases, objs, pyobjs):
+    """[(case index, slot, object literal form, flag, n)] for every recorded (executed) binding"""
+    env = dict(vars(U))
+    exec("from typing import Any, Literal, Type, Union\n_REC = []\n" + "\n".join(stored_src(i, *cs, True) for i, cs in enumerate(cases)), env)
+    out = []
+    for i, cs in enumerate(cases):
+        fn = env[f"f_{i}"]
+        for lo, o in zip(objs, pyobjs):
+            if not py_member(o, cs[0]) or (cs[1] != ("truthy",) and not py_cond_ok(cs[1], o)):
+                continue  # outside V, or outside the property's quantifier (`True == 1`: equal but of another type)
+            for flag in (True, False):
+                for n in (0, 2):
+                    del env["_REC"][:]
+                    try:
+                        fn(o, flag, n)
+                    except Exception:
+                        continue
+                    for (ci, slot, bound) in env["_REC"]:
+                        out.append((ci, slot, bound, lo, flag, n))
+    return out
+
+
 def impl_e2e(srcs):
     """srcs: {case index: source}.  Returns {index: [pos, neg]} of decoded inferred values."""
     from pyanalyze.ast_annotator import annotate_code
@@ -1283,6 +1368,10 @@ def all_leaves():
     out.append(("always",))
     out += [("opaque", True), ("opaque", False)]
     out += [("pat", p) for p in all_patterns()]
+    # union-valued conditions (AlternativesConstraint), both values of the opaque selector
+    alt_ops = [("isinstance", ("int",)), ("isinstance", ("str",)), ("is", ("none",)), ("eq", ("int", 1)), ("not", ("isinstance", ("str",))),
+               ("not", ("is", ("none",))), ("isinstance", ("A",)), ("in", (("int", 1), ("str", "a")))]
+    out += [("ifexp", fl, a, b) for fl in (True, False) for a in alt_ops for b in alt_ops if a != b]
     # assert-style constraint types (is_instance, is_value, add_annotation)
     out += [("assertinst", c) for c in ("int", "float", "bool", "str", "A", "B", "C", "tuple", "object", "type", "EnumMeta", "list")]
     out += [("not", ("assertinst", c)) for c in ("int", "float", "complex", "A", "object")]
@@ -1299,7 +1388,7 @@ def is_simple_pattern(c):
     pattern): the implementation then feeds a MultiValuedValue to the next constraint, which
     Constraint.apply_to_value's docstring excludes; kept out of composite conditions."""
     k = c[0]
-    if k == "pat":
+    if k in ("pat", "ifexp"):
         return False
     if k in ("isinstance", "issubclass", "typeis"):
         return len(c[1]) == 1
@@ -1428,6 +1517,10 @@ def run(tier: str, replay: str | None = None):
             return l[0] in ("truthy", "len", "rlen", "pat", "seqis", "seqlen", "mapis", "assertinst", "matchclass", "always")
 
         def in_quick(sv, l):
+            if l[0] == "ifexp":
+                b = sv[0]
+                return not sv[1] and (b in (("any",), ("typed", "int"), ("typed", "str"), ("typed", "object"), ("typed", "A"), ("known", ("none",)),
+                                            ("known", ("int", 1)), ("typed", "bool")) or b == ("tuple", ((True, "int"),)))
             if pattern_leaf(l) and not pattern_relevant(sv):
                 return False
             return not collection_sval(sv) or collection_leaf(l)
@@ -1476,7 +1569,7 @@ def run(tier: str, replay: str | None = None):
         # every case: both narrowed values and the boolability; the per-object facts (spec vs CPython,
         # guard clauses) for every case in the thorough tier / a replay, for 1 case in 5 in the quick
         # tier, and afterwards (second batch) for every case on which the oracle found a failure
-        full_idx = set(i for i in range(len(cases)) if tier != "quick" or replay or i % 5 == 0)
+        full_idx = set(i for i in range(len(cases)) if tier != "quick" or replay or i % 8 == 0)
         terms = [model_term(v, c, i in full_idx) for i, (v, c) in enumerate(cases)]
 
         def _eval_model():
@@ -1511,7 +1604,7 @@ def run(tier: str, replay: str | None = None):
         # (single value, leaf) pairs only with probability 1/2 (deterministic in the case)
         if tier != "quick" or replay or len(v) > 1 or c[0] in ("pat", "assertinst", "assertis", "hasattr", "len", "rlen", "not", "and", "or", "matchclass"):
             return True
-        return zlib.crc32(repr((lib.seed(), v, c)).encode()) % 2 == 0
+        return zlib.crc32(repr((lib.seed(), v, c)).encode()) % 3 == 0
 
     for i, (v, c) in enumerate(cases):
         if not e2e_wanted(i, v, c):
@@ -1557,6 +1650,28 @@ def run(tier: str, replay: str | None = None):
         v, shape, a, b = alts[k]
         rep.violation({"kind": "failing-input", "route": "e2e-union-valued-condition", "input": {"value": v, "shape": shape, "a": a, "b": b}, "branch": pol, "object": lit_src(lo),
                        "source": alt_src(k, v, shape, a, b), "observed": out, "expected": "an object that can take the branch stays in the value of that branch"})
+
+    # 3c. stored-condition programs, executed under CPython
+    stored = stored_cases(random.Random(lib.seed() * 9173 + 11), 0 if replay else (150 if tier == "quick" else 2000))
+    stored_failures = []
+    try:
+        st_res = impl_e2e({k: stored_src(k, *sc, False) for k, sc in enumerate(stored)}) if stored else {}
+        for (k, slot, bound, lo, flag, n) in (run_stored(stored, objs, pyobjs) if stored else []):
+            outs = st_res.get(k)
+            if not outs or not isinstance(outs[slot], frozenset):
+                continue
+            if not py_member(bound, tuple(outs[slot])):
+                stored_failures.append((k, slot, repr(bound), lit_src(lo), flag, n, sorted(map(str, outs[slot]))))
+    except Exception as ex:
+        rep.violation({"kind": "broken-correspondence", "correspondence": "stored-condition programs (executed)", "detail": repr(ex)[-1500:]}, no_failing_input=True)
+    seen_sc = set()
+    for (k, slot, bound, arg, flag, n, out) in stored_failures:
+        if k in seen_sc or len(seen_sc) >= 3:
+            continue
+        seen_sc.add(k)
+        rep.violation({"kind": "failing-input", "route": "e2e-stored-condition", "input": {"stored": stored[k]}, "call": f"f_{k}({arg}, {flag}, {n})",
+                       "object_bound_at_the_recording_point": bound, "branch_slot": slot, "source": stored_src(k, *stored[k], False), "observed": out,
+                       "expected": "the object bound to x where the branch on the stored flag is taken belongs to the value inferred there"})
 
     _t["e2e"] = _time.time()
     # 4. model: join the evaluation thread started above
@@ -1773,6 +1888,8 @@ def run(tier: str, replay: str | None = None):
         oracle_failures_attributed={k: True for k in known_hits},
         spec_vs_cpython_pairs=len(full_idx) * len(objs) if model is not None else 0,
         exhaustive=(tier == "thorough" and not replay),
+        stored_condition_programs=len(stored),
+        stored_condition_failures=len(stored_failures),
         union_valued_condition_cases=len(alts),
         union_valued_condition_failures=len(alt_failures),
         stage_seconds={"impl_api": round(_t["api"] - _t["start"], 1), "impl_e2e": round(_t["e2e"] - _t["api"], 1),
